@@ -313,6 +313,12 @@ class KMeansMachine(BaseEstimator):
         logger.debug("Transform k-means data to dask array")
         data = da.array(data)
         data.rechunk(1, data.shape[-1])  # Prevents issue with large arrays.
+        # k_init's "k-means||" cannot handle blocks without rows (e.g. the
+        # concatenation of per-file arrays, one of which is empty): drop them
+        if any(c == 0 for c in data.chunks[0]):
+            data = data.rechunk(
+                {0: tuple(c for c in data.chunks[0] if c != 0)}
+            )
         logger.debug("Get k-means centroids")
         centroids = k_init(
             X=data,
